@@ -23,8 +23,11 @@ func (prop) Rule() string {
 		"chunk counts b^k-1, b^k, b^k+1, and 2^7+1 chunks for the trie-full error); content lengths 0,1,31..33,63..65,127..129,4095..4097, C-1,C,C+1,2C-1,2C,2C+1,3C, random; " +
 		"segmentations: one write, fixed pieces 1/7/31/32/33/1000/4096/C/C+1/3C/random, random cuts with zero-length writes, cuts next to chunk boundaries; then `sum`. " +
 		"Model side also evaluates the independent format specification (Spec.root) and runs the literal buffer-and-cursor model of the hash-trie writer next to the list model (BUF-LIST-MISMATCH if they differ); in `new small` mode the answers carry the writer's cursors[1..8], full flag and a digest of buffer[0:cursors[1]] after every ChainWrite and after Sum (real writer: verif hook hashtrie.VerifPeek; model: Aurora.HashTrieBuf), incl. fixed cases with the real constants (`new small 262144 8192`), B=128 and B=16. Go oracle: independent Go implementation of the format (own BMT over sha3), same bytes in one write give the same reference, every Put is cac.Valid; pipe mode: chunkpipe-bytes-reordered / -lost-or-added / chunkpipe-short-piece-not-last. " +
+		"`leaves n span seed` (only in `new small`): n ChainWrite calls on the REAL hash-trie writer itself with Span = le64(span) and the i-th 32-byte piece of genBytes(seed) as reference (no data: spans of 2^32 and more cost nothing), `sum` then is the writer's own Sum (feeder bypassed); the model side feeds the same leaves to the list model and the literal cursor model and evaluates rootG over the leaf entries as specification; fixed cases fix-span-4gib (totals exactly 2^32 at the root, at level 2, 2^33 with a carried leaf) and fix-span-4gib-plus-chunk (2^32 + C; 129 leaves of 2^25 with the real chunk size and B=128; 2^63+2^63 = uint64 wrap-around to 0; malformed), spx-b-j±1 (b in {2,4,8}, leaf span 2^32/b^j, b^j-1 / b^j / b^j+1 leaves: the sum reaches 2^32 when level j is wrapped, j up to 7), sp* (leaf spans c, 2^20, 2^28, 2^31, 2^32-1, 2^32, 2^32+1, 2^40, 2^62, random; n around b^k incl. the trie-full error; whole chunks written first; a last smaller leaf); totals stay below 2^64 except in the fixed wrap-around case. Go oracle in every `new small` case (trie-intermediate-span-not-children-sum, trie-root-span-not-leaf-sum, trie-chunk-missing): the span header of every stored intermediate chunk is the uint64 sum of its children's spans and the root's is the sum of the leaf spans the writer was given. " +
 		"Non-trivial: summed content of >= 2 chunks or written in >= 2 writes; distinct by op-list hash. Real-constant multi-chunk cases are limited in number (Lean-side hashing cost)."
 }
+
+func pick64(r *core.Rand, xs []uint64) uint64 { return xs[r.Intn(len(xs))] }
 
 func pow(b, k int) int {
 	p := 1
@@ -35,12 +38,25 @@ func pow(b, k int) int {
 }
 
 func (prop) Gen(r *core.Rand, tier string) []core.Case {
-	nSmall, nMed, nBig, nTiny, nPipe, nFeed, nPar := 110, 10, 7, 90, 16, 16, 0
+	nSmall, nMed, nBig, nTiny, nPipe, nFeed, nPar, nSpan := 110, 10, 7, 90, 16, 16, 0, 30
 	if tier == "thorough" {
-		nSmall, nMed, nBig, nTiny, nPipe, nFeed, nPar = 600, 60, 20, 700, 150, 150, 6
+		nSmall, nMed, nBig, nTiny, nPipe, nFeed, nPar, nSpan = 600, 60, 20, 700, 150, 150, 6, 300
 	}
 	C := fc.C
 	cs := []core.Case{
+		// seeded change C08-3 (wrapFullLevel wrote the summed span of an intermediate chunk with PutUint32): spans of
+		// 2^32 and more, reached without data by `leaves n span seed` = n ChainWrite calls on the real hash-trie writer
+		{ID: "fix-span-4gib", NT: true, Ops: []string{
+			"new small 64 4", "leaves 4 1073741824 1", "sum", // root over 4 leaves of 2^30: total exactly 2^32
+			"new small 64 2", "leaves 4 1073741824 2", "sum", // two levels: 2^31 + 2^31
+			"new small 64 4", "leaves 16 268435456 3", "sum", // level 2 full: 4 x (4 x 2^28)
+			"new small 64 2", "leaves 2 4294967295 4", "leaves 1 2 4", "sum"}}, // (2^32-1) + (2^32-1), carried 2: 2^33
+		{ID: "fix-span-4gib-plus-chunk", NT: true, Ops: []string{
+			"new small 64 4", "leaves 4 1073741824 5", fmt.Sprintf("leaves 1 %d 6", C), "sum", // 2^32 + C
+			fmt.Sprintf("new small %d 128", C), fmt.Sprintf("leaves 129 %d 7", 128*C), "sum", // (128+1) x 2^25 = 2^32 + 2^25, real chunk size
+			"new small 64 2", "leaves 2 9223372036854775808 8", "sum", // 2^63 + 2^63: the uint64 sum wraps to 0
+			"new small 64 2", "leaves 3 9223372036854775808 9", "leaves 1 5 9", "sum",
+			"new", "leaves 1 1 1", "new small 64 2", "leaves 0 1 1", "leaves 1 18446744073709551616 1", "leaves 1 1 4294967296", "leaves 1 18446744073709551615 1", "sum", "leaves 1 1 1"}},
 		{ID: "fix-selftest", Ops: []string{"selftest h:-", "selftest g:1:100", "selftest g:2:5000", fmt.Sprintf("selftest p:3:%d:1000", C)}},
 		{ID: "fix-empty", NT: true, Ops: []string{"new", "sum", "new", "write h:-", "write h:-", "sum", "new pipe", "sum"}},
 		{ID: "fix-protocol", Ops: []string{"write h:00", "sum", "open", "new", "write h:00", "sum", "sum", "write h:01", "new small 0 2", "new small 64 1", "frob"}},
@@ -252,6 +268,63 @@ func (prop) Gen(r *core.Rand, tier string) []core.Case {
 		}
 		cse.Ops = append(cse.Ops, "sum")
 		cs = append(cs, cse)
+	}
+	// spans beyond 2^32 (seeded change C08-3): `leaves` on the real hash-trie writer.  (a) the sum crosses 2^32 exactly
+	// when a group of level j is wrapped: branching b in {2,4,8}, leaf span 2^32 / b^j, b^j - 1 / b^j / b^j + 1 leaves
+	// (+ sometimes a last smaller leaf); (b) random: leaf spans c, 2^20, 2^28, 2^31, 2^32-1, 2^32, 2^32+1, 2^40, 2^62, random;
+	// n around b^k; optionally whole chunks written through the pipeline first and a last leaf with a smaller span
+	span := func(id string, c, b int, ops ...string) {
+		cse := core.Case{ID: id, NT: true, Ops: []string{fmt.Sprintf("new small %d %d", c, b)}}
+		cse.Ops = append(cse.Ops, ops...)
+		cse.Ops = append(cse.Ops, "sum")
+		cs = append(cs, cse)
+	}
+	for _, bj := range [][2]int{{2, 1}, {2, 2}, {2, 3}, {2, 4}, {2, 5}, {2, 6}, {2, 7}, {4, 1}, {4, 2}, {4, 3}, {4, 4}, {4, 5}, {8, 1}, {8, 2}, {8, 3}} {
+		b, j := bj[0], bj[1]
+		leaf := uint64(1<<32) / uint64(pow(b, j))
+		for _, d := range []int{-1, 0, 1} {
+			if tier != "thorough" && d != 0 && r.Chance(50) {
+				continue
+			}
+			ops := []string{fmt.Sprintf("leaves %d %d %d", pow(b, j)+d, leaf, r.Intn(1<<30))}
+			if r.Chance(40) {
+				ops = append(ops, fmt.Sprintf("leaves 1 %d %d", r.Range(1, 64), r.Intn(1<<30)))
+			}
+			span(fmt.Sprintf("spx-%d-%d%+d", b, j, d), 64, b, ops...)
+		}
+	}
+	for i := 0; i < nSpan; i++ {
+		c := r.Pick([]int{32, 64})
+		b := r.Pick([]int{2, 2, 3, 4, 5, 8})
+		maxk := 7
+		for pow(b, maxk) > 1100 {
+			maxk--
+		}
+		n := pow(b, r.Range(1, maxk)) + r.Pick([]int{-1, 0, 0, 1})
+		if r.Chance(25) {
+			n = r.Range(1, pow(b, maxk)+1)
+		}
+		if n < 1 {
+			n = 1
+		}
+		leaf := pick64(r, []uint64{uint64(c), 1 << 20, 1 << 28, 1 << 31, 1<<32 - 1, 1 << 32, 1<<32 + 1, 1 << 40, 1 << 62, uint64(r.Intn(1 << 31)), uint64(r.Intn(1<<31)) << 20})
+		var ops []string
+		if r.Chance(20) {
+			ops = append(ops, fmt.Sprintf("write g:%d:%d", r.Intn(100000), c*r.Range(1, 2*b)))
+		}
+		if r.Chance(30) && n > 2 {
+			k := r.Range(1, n-1)
+			ops = append(ops, fmt.Sprintf("leaves %d %d %d", k, leaf, r.Intn(1<<30)))
+			n -= k
+			if r.Chance(50) {
+				leaf = pick64(r, []uint64{uint64(c), 1 << 31, 1 << 32, 1 << 33})
+			}
+		}
+		ops = append(ops, fmt.Sprintf("leaves %d %d %d", n, leaf, r.Intn(1<<30)))
+		if r.Chance(40) {
+			ops = append(ops, fmt.Sprintf("leaves 1 %d %d", r.Range(1, c), r.Intn(1<<30)))
+		}
+		span(fmt.Sprintf("sp%d", i), c, b, ops...)
 	}
 	// concurrent uploads (seeded change C02-4: the pipeline's bmt writer returned its hasher to the process-wide
 	// pool before Hash had finished): one uploader stores a 4-chunk content several times while twelve others keep
